@@ -301,6 +301,33 @@ Definition run_read_preamble (ts : list tok) : list N :=
   | _ => bad
   end.
 
+(** E <module?> <str>: READ (with or without module cursor) then EVAL in a fresh initial
+    environment.  Output: outcome | trace | position of the error: "p <module?> <begin row> <end row>" or "p -" *)
+Definition show_err_pos (o : outcome val) : list N :=
+  match o with
+  | Err (VLispErr _ (Some p)) =>
+      s_ "p " ++ (match pmod p with Some _ => s_ "1 " | None => s_ "0 " end) ++ show_Z (brow p) ++ sp ++ show_Z (erow p) ++ sp
+  | _ => s_ "p - "
+  end.
+
+Definition run_read_eval (ts : list tok) : list N :=
+  match ts with
+  | TNum md :: r =>
+      match parse_str r with
+      | Some (src, []) =>
+          match read_str (if Z.eqb md 0 then None else Some (s_ "mod")) None None src with
+          | Ok ast =>
+              let '(o, st) := eval RUN_FUEL 1 ast ROOT init_state in
+              show_outcome o ++ s_ "| " ++ show_val (VList (rev (trace st)) None) ++ s_ "| " ++ show_err_pos o
+          | Err _ => s_ "READERR"
+          | Panic _ => s_ "P"
+          | OutOfFuel => s_ "O"
+          end
+      | _ => bad
+      end
+  | _ => bad
+  end.
+
 Definition run_tokens (ts : list tok) : list N :=
   match ts with
   | TTag c :: r =>
@@ -312,6 +339,7 @@ Definition run_tokens (ts : list tok) : list N :=
       else if N.eqb c (tagc "R") then run_read r
       else if N.eqb c (tagc "W") then run_print_read r
       else if N.eqb c (tagc "A") then run_add_preamble r
+      else if N.eqb c (tagc "E") then run_read_eval r
       else if N.eqb c (tagc "Y") then run_read_preamble r
       else if N.eqb c (tagc "X") then run_read_print_read r
       else bad
